@@ -3,10 +3,15 @@
 proof:           lean/StepModel/Props/C16.lean (readWorking (writeWorking s) = s minus deleted, with states; deleted
                  exactly; second save = first minus its D entries, identical when nothing is deleted, and identical
                  from the second cycle on; same ids/types/values as an exchange round trip)
-                 model: lean/StepModel/Session.lean (WriteWorkingData, ReadData1/2 prefix handling, ReadInstance)
+                 model: lean/StepModel/Session.lean (WriteWorkingData, ReadData1/2 prefix handling, ReadInstance);
+                 header instances: lean/StepModel/HeaderIds.lean (HeaderId/_headerId, InstMgr::Append renaming, verify,
+                 merge, WriteHeader) - ids never collide, a Part 21 ordered header survives read/save/re-open
 regenerated tie: tools/extract.d/stepfile.py (state -> letter switch of WriteWorkingData, EntityWfState, the accepted
-                 letter set, deleted entries skipped, working-session reads never change the state), enums.py
-correspondence:  harness/h_p21.cc (read; setstate*; writework; readwork; dump; writework; ...) vs lean exe m_c16
+                 letter set, deleted entries skipped, working-session reads never change the state), enums.py,
+                 headerids.py (every use of _headerId, fixed ids, clash rule, look-up orders of verify/merge/WriteHeader)
+correspondence:  harness/h_p21.cc (read; setstate*; writework; readwork; dump; hdr; writework; ...) vs lean exe m_c16,
+                 incl. the file ids of the header instances and the header written after every load / save, and
+                 hand-made header histories (non-standard orders, missing required instances, appends)
 oracle:          the statement evaluated on the files the implementation writes and the states it reports
 """
 import concurrent.futures as cf
